@@ -115,6 +115,7 @@ enum {
     V_SRC_BLOCKED,          /* the source pump is still blocked after everything was delivered */
     V_TWIN_SETTER,          /* a rejected setter changed what the pipe does next */
     V_TWIN_GETTER,          /* a getter changed what the pipe does next */
+    V_STALE_FLOW_DEF,       /* a buffer delivered under a flow definition that is no longer the pipe's current one */
 };
 
 static const char *class_name(int cls)
@@ -136,6 +137,7 @@ static const char *class_name(int cls)
     case V_SRC_BLOCKED: return "source_left_blocked";
     case V_TWIN_SETTER: return "rejected_setter_changed_behaviour";
     case V_TWIN_GETTER: return "getter_changed_behaviour";
+    case V_STALE_FLOW_DEF: return "stale_flow_def";
     default: return NULL;
     }
 }
@@ -336,6 +338,7 @@ static struct sink {
     bool refuse;
     bool accepted;              /* accepted a flow definition since it was plugged */
     unsigned inputs, flow_defs, refused;
+    uint64_t fd_hash;           /* of the flow definition accepted last */
     bool blocking;              /* holds what arrives and blocks the pump it came from */
     struct uchain held, blockers;
 } sinks[NSINK];
@@ -456,6 +459,14 @@ static void sink_input(struct upipe *upipe, struct uref *uref, struct upump **up
             sim_violation(V_NO_FLOW_DEF, "%s sends a buffer to an output that %s", types[type].name,
                           s->refused ? "refused its flow definition" : "was given no flow definition");
     }
+    /* C04: the definition this output accepted is still the one the pipe calls
+     * its current one */
+    if (checking() && s->accepted && ut != NULL && !ut_dead && !fault_fired && plan->cfg[CFG_PROP] == 4) {
+        struct uref *cur = NULL;
+        if (ubase_check(upipe_get_flow_def(ut, &cur)) && cur != NULL && dict_hash(cur) != s->fd_hash)
+            sim_violation(V_STALE_FLOW_DEF, "%s delivers a buffer although its current flow definition (get_flow_def) is not the one "
+                          "its output accepted last: a change was not announced", types[type].name);
+    }
     uint64_t sq = 0;
     if (ubase_check(uref_attr_get_unsigned(uref, &sq, UDICT_TYPE_UNSIGNED, "x.seq")) && sq < MAXSEQ && checking() &&
         plan->cfg[CFG_PROP] == 5 && !fault_fired) {
@@ -515,6 +526,12 @@ static int sink_control(struct upipe *upipe, int command, va_list args)
             return UBASE_ERR_INVALID;
         }
         s->accepted = true;
+        {
+            va_list copy;
+            va_copy(copy, args);
+            s->fd_hash = dict_hash(va_arg(copy, struct uref *));
+            va_end(copy);
+        }
         return UBASE_ERR_NONE;
     case UPIPE_REGISTER_REQUEST: {
         struct urequest *rq = va_arg(args, struct urequest *);
